@@ -63,9 +63,12 @@ AR(d, ev, k, x) == [d |-> d, ev |-> ev, k |-> k, x |-> x]
 Malloc(cell, D) == [cell EXCEPT !.buf = Zeros(D.size), !.al = "heap"]
 Accessible(cell) == cell.al \in {"inline", "heap"}
 
-\* the allocate-on-demand guard emitted in front of writes (5580/5607)
+\* the allocate-on-demand guard emitted in front of writes: `if (!ptr) ptr = malloc(size)`.  It is emitted for
+\* strings without a default value (those with one are allocated by start()) and, when delete may free buffers,
+\* for every string.  needdyn: the append templates additionally require the string to be dynamic.
+MayBeNull(M, D) == M.cfg.ondemand /\ (~D.hasdef \/ M.cfg.delfree)
 OnDemand(M, D, cell, needdyn) ==
-  IF M.cfg.ondemand /\ ~D.hasdef /\ (~needdyn \/ Dyn(M, D)) /\ cell.al = "null" THEN Malloc(cell, D) ELSE cell
+  IF MayBeNull(M, D) /\ (~needdyn \/ Dyn(M, D)) /\ cell.al = "null" THEN Malloc(cell, D) ELSE cell
 
 AppendByte(M, d, name, b, ovf, ev) ==
   LET D == M.decl[name]
@@ -101,7 +104,9 @@ RunActs(M, acts, i, d, ev, last, mode) ==
            IF M.cfg.ondemand /\ M.cfg.delfree /\ mode # "start" /\ Dyn(M, D)
            THEN go([d EXCEPT ![a.var] = [c0 EXCEPT !.al = "null", !.len = 0, !.buf = Zeros(D.size)]], ev)
            ELSE IF Term(D)
-                THEN (IF ~Accessible(c0) THEN AR(d, ev, "ub", "write through null/freed pointer")
+                THEN (IF M.cfg.ondemand /\ Dyn(M, D) /\ ~D.hasdef /\ c0.al = "null"
+                      THEN go([d EXCEPT ![a.var] = [c0 EXCEPT !.len = 0]], ev)      \* guarded: no buffer yet, nothing to terminate
+                      ELSE IF ~Accessible(c0) THEN AR(d, ev, "ub", "write through null/freed pointer")
                       ELSE go([d EXCEPT ![a.var] = [c0 EXCEPT !.buf = WriteAt(c0.buf, 0, <<0>>), !.len = 0]], ev))
                 ELSE go([d EXCEPT ![a.var] = [c0 EXCEPT !.len = 0]], ev)
       [] a.op = "append" ->
